@@ -50,6 +50,11 @@ func Parse(tmpl string) (*Template, error) {
 		return nil, fmt.Errorf("template %q does not contain leading /", tmpl)
 	}
 
+	if strings.Contains(tmpl, eof) {
+		// a NUL would be taken for the end-of-input token
+		return nil, fmt.Errorf("template %q contains an invalid character", tmpl)
+	}
+
 	tokens := tokenize(tmpl[1:])
 	p := &parser{
 		accepted: tokens[:0],
@@ -89,6 +94,17 @@ func (p *parser) template() (*Template, error) {
 		if verbIdx := strings.LastIndex(last.literal, ":"); verbIdx != -1 {
 			tmpl.verb = last.literal[verbIdx+1:]
 			last.literal = last.literal[:verbIdx]
+
+			// what is left in front of the verb can be a wildcard ("/v1/*:verb"), or nothing at all,
+			// which is only meaningful for the root template ("/:verb")
+			switch {
+			case last.literal == "*":
+				*last = segment{typ: segmentWildcard}
+			case last.literal == "**":
+				*last = segment{typ: segmentMultiWildcard}
+			case last.literal == "" && len(segments) > 1:
+				return nil, p.error()
+			}
 		}
 	} else if last.typ == segmentVariable && p.left[0] != eof {
 		// additionally allow a verb
